@@ -22,11 +22,15 @@ Guard(a, b) == CASE Body = "unguarded" -> TRUE
                  [] Body = "argvar"    -> a # Lim
                  [] Body = "twoyields" -> a # Lim
                  [] Body \in {"recurfirst", "deferrecur"} -> a # 1 /\ a < Lim + 2       \* a hole at 1, then an end
+                 [] Body = "nested"    -> a <= Lim
                  [] OTHER              -> a < Lim
 EagerRecur == Body \in {"recurfirst", "deferrecur"}
-Yield(a, b) == IF Body = "local" THEN 2 * a ELSE a
+(* "twice" keeps a flag in the iterator's own scope (assigned by the body, not given by recur): every value is visited twice, *)
+(* the first visit only sets the flag; "nested" builds another iterator inside its body on every next and asks it for 1, 2   *)
+Yield(a, b) == IF Body = "local" THEN 2 * a ELSE IF Body = "nested" THEN a * 100 + 12 ELSE a
 Recur(a, b) == CASE Body = "fib"  -> <<b, a + b>>
                  [] Body = "step" -> <<a + b, b>>
+                 [] Body = "twice" -> IF b = 1 THEN <<a + 1, 0>> ELSE <<a, 1>>
                  [] OTHER         -> <<a + 1, b>>
 Start(n) == IF Body \in {"fib", "step"} THEN <<n, n + 1>> ELSE <<n, 0>>
 Finite == Body # "unguarded"
